@@ -331,6 +331,8 @@ post_worker = [Contract(QM + "make_full_samples_worker", "C05", params={"task": 
                         cases=[{"_name": kind}],
                         ensures={"C02:rows-unaltered": "all(view3(result)[n, j, c] == task_rows()[n, c] for n in range(len(task_rows())) "
                                                        "for j in range(task[4]) for c in range(5))",
+                                 "C03:each-draw-paired-with-its-own-nonlinear-row": "all(view3(result)[n, j, c] == task_rows()[n, c] for n in range(len(task_rows())) "
+                                                                                    "for j in range(task[4]) for c in range(5))",
                                  "C10:draws-on-the-task-generator-only": "n_rng_events() == 1 and rng_event(0).gen == 'task-rng'",
                                  "C13:read-only-opens": "all_opens_read_only()"})
                for kind in ("range", "index-array")]
@@ -484,6 +486,8 @@ full_body = Contract(
               "all(0 <= samples_idx[k] and samples_idx[k] < prior_samples_file.nrows for k in range(len(samples_idx)))"],
     ensures={"C02:rows-unaltered-in-the-given-order": "all(view3(result.packed)[n, j, c] == prior_samples_file.packed[samples_idx[n], c] "
                                                       "for n in range(len(samples_idx)) for j in range(n_linear_samples) for c in range(5))",
+             "C03:each-draw-paired-with-its-own-nonlinear-row-for-any-batching": "all(view3(result.packed)[n, j, c] == prior_samples_file.packed[samples_idx[n], c] "
+                                                                                 "for n in range(len(samples_idx)) for j in range(n_linear_samples) for c in range(5))",
              "C03:units-from-helper": "result.units is joker_helper.internal_units",
              "C04:t_ref-from-data": "result.t_ref is joker_helper.data.t_ref",
              "C10:draws-only-on-children-of-the-handed-generator": "all(rng_event(k).gen == 'child-of:rng' for k in range(n_rng_events()))"},
